@@ -144,7 +144,7 @@ def expand(case):
     ops.append({"op": "mark"})
     # K random edits
     for _ in range(case["k"]):
-        r = rnd.random()
+        r = rnd.random() * 1.06       # (the last kinds were added later: their share comes on top)
         s = rnd.choice(names)
         if r < 0.3:
             ops.append(mk_cell_op("def_cells", s, rnd.choice(CELLS), k(), rnd))
@@ -159,8 +159,13 @@ def expand(case):
             ops.append({"op": "add_bases", "space": s, "bases": [b]})
         elif r < 0.96:
             ops.append({"op": "remove_any_base", "space": s, "pick": rnd.randrange(8)})
-        else:
+        elif r < 1.0:
             ops.append({"op": "toggle_cached", "space": s, "name": rnd.choice(CELLS)})
+        elif r < 1.035:
+            ops.append({"op": "allow_none_defined", "space": s, "name": rnd.choice(CELLS),
+                        "value": rnd.choice([True, False, None])})
+        else:
+            ops.append({"op": "rename_defined", "space": s, "name": rnd.choice(CELLS), "new": "q%d" % k()})
     c = dict(case)
     c["ops"] = ops
     return c
@@ -203,6 +208,16 @@ def concretize(w, op):
         if not bs:
             return None, None
         return dict(op, bases=bs), "add_bases"
+    if k == "allow_none_defined":
+        sp = rm.get(op["space"])
+        if op["name"] not in sp.cells:
+            return None, None
+        return {"op": "set_allow_none", "space": op["space"], "name": op["name"], "value": op["value"]}, "allow_none"
+    if k == "rename_defined":
+        sp = rm.get(op["space"])
+        if op["name"] not in sp.cells or any(op["name"] in b.cells for b in R.mro(sp)[1:]):
+            return None, None       # only a cells that overrides nothing can be renamed
+        return {"op": "rename_cells", "space": op["space"], "name": op["name"], "new": op["new"]}, "rename"
     if k == "toggle_cached":
         sp = rm.get(op["space"])
         mem = R.members(sp)["cells"]
